@@ -124,6 +124,40 @@ class SIRlike:
         print('oracle verdict:', bad or 'holds'); return 1 if bad else 0
 
 
+class Discrete(SIRlike):
+    """disc_lib: discrete_SIR (table rules), basic_discrete_SIR, basic_discrete_SIS, percolation_based_discrete_SIR"""
+    def oracle(self, what, lib, EoN, sim):
+        sir = self.sir
+        def f(case, impl, m):
+            if impl['status'] != 'OK' or isinstance(impl.get('rows'), str):
+                return []
+            gc = case['gc']; N = len(gc.order)
+            out = []
+            if case['tmax'] is not None and (F(case['tmax']) - F(case['tmin'])).denominator != 1:
+                return []      # the property speaks about horizons that are a whole number of steps
+            if what == 'wf_traj':
+                ends = case['tmax'] is None and case.get('rec') is None and m.get('status') == 'OK'
+                d = X.wf_traj(impl['rows'], case['tmin'], case['tmax'], N, None, continuous=False, final_no_infected=ends)
+                if not d and not isinstance(impl['rows'], tuple) and not case.get('full'):
+                    # one row per time step (summary() of the full-data object only lists times at which something changed)
+                    for i in range(1, len(impl['rows'])):
+                        if not C.close(impl['rows'][i][0] - impl['rows'][i - 1][0], 1.0):
+                            d = 'rows %d->%d are %r apart, not one time step' % (i - 1, i, impl['rows'][i][0] - impl['rows'][i - 1][0]); break
+                if d: out.append(('wf_traj', d))
+            elif what == 'initial_condition':
+                if case.get('i0') is not None and case.get('rho') is None:
+                    d = X.initial_condition(impl['rows'], impl.get('hist'), N, _ids(case, 'i0'), _ids(case, 'r0') if sir else set(), case['tmin'], sir)
+                    if d: out.append(('initial-condition', d))
+            elif what == 'valid_transmissions':
+                if 'hist' in impl and case.get('i0') is not None and case.get('rec') is None:
+                    G = gc.G
+                    adj = {gc.idmap[u]: {gc.idmap[v] for v in G.neighbors(u)} for u in gc.order}
+                    d = X.valid_transmissions(impl['trans'], impl['hist'], adj, _ids(case, 'i0'), case['tmin'], sir=sir, discrete=True)
+                    if d: out.append(('transmissions', d))
+            return out
+        return f
+
+
 class Generic:
     """simple_lib / complex_lib: arbitrary status sets; the trajectory oracle checks time order,
     tmax, non-negative counts and that one node changes per row"""
@@ -185,6 +219,10 @@ ADAPTERS = [
     SIRlike('fast_SIR', 'esir_lib', 'FSIR', True, 'fast_SIR', 'Model/EventSIR.v', 'C11 (through the shared loop)'),
     SIRlike('fast_SIS', 'esis_lib', 'fast_SIS', False, 'fast_SIS', 'Model/EventSIS.v', 'C02fast: log_ok (every event enabled)'),
     SIRlike('fast_nonMarkov_SIS', 'esis_lib', 'fast_nonMarkov_SIS', False, 'fast_nonMarkov_SIS', 'Model/EventSIS.v', 'C13: refines the reference agenda semantics'),
+    Discrete('discrete_SIR', 'disc_lib', 'DSIR', True, 'discrete_SIR', 'Model/Discrete.v', 'C12: dsir_bfs (rows = BFS generation sizes, S+I+R=N, fuel never exhausted)'),
+    Discrete('basic_discrete_SIR', 'disc_lib', 'BSIR', True, 'basic_discrete_SIR', 'Model/Discrete.v', 'C12 (forwards to discrete_SIR)'),
+    Discrete('basic_discrete_SIS', 'disc_lib', 'SIS', False, 'basic_discrete_SIS', 'Model/Discrete.v', 'C12: sis_step_law'),
+    Discrete('percolation_based_discrete_SIR', 'disc_lib', 'PSIR', True, 'percolation_based_discrete_SIR', 'Model/Discrete.v', 'C12: perc_sir_pathwise'),
     Generic('Gillespie_simple_contagion', 'simple_lib', 'Gillespie_simple_contagion', 'Model/Simple.v'),
     Generic('Gillespie_complex_contagion', 'complex_lib', 'Gillespie_complex_contagion', 'Model/Complex.v'),
 ]
